@@ -2174,7 +2174,14 @@ def preprocess_file(
         def_args = def_args.split(",")
         # The macro body is literal text, not a regex replacement template
         sub = sub.replace("\\", "\\\\")
-        regex = re.compile(rf"\b{def_name}\s*\({','.join(['(.*)']*len(def_args))}\)")
+        # An argument ends at the first comma or closing parenthesis that is not
+        # inside a string or a (nested) pair of parentheses, so that two calls on
+        # one line, `F(1) + F(2)`, are two matches
+        nested = r"[^()]*"
+        for _ in range(3):
+            nested = rf"(?:[^()]|\({nested}\))*"
+        arg = rf"((?:\"[^\"]*\"|'[^']*'|[^(),\"']|\({nested}\))*)"
+        regex = re.compile(rf"\b{def_name}\s*\({','.join([arg]*len(def_args))}\)")
 
         for i, arg in enumerate(def_args, start=1):
             # A macro without parameters, `#define F() body`, has no names to replace
